@@ -268,6 +268,12 @@ func main() {
 				}
 				continue
 			}
+			if f := strings.Fields(sc.Text()); len(f) >= 2 && f[0] == "C03" && f[1] == "seq" {
+				if c, ok := parseSeq(f); ok {
+					out.Line("%s => %s", c.input(), runSeq(c))
+				}
+				continue
+			}
 			if f := strings.Fields(sc.Text()); len(f) >= 2 && f[0] == "C03" && f[1] == "block" {
 				if c, ok := parseBlock(f); ok {
 					out.Line("%s => %s", c.input(), runBlock(c))
@@ -280,7 +286,7 @@ func main() {
 		}
 		return
 	}
-	if su := a.Extra["suite"]; su == "raw" || su == "block" {
+	if su := a.Extra["suite"]; su == "raw" || su == "block" || su == "seq" {
 		total := a.N
 		if total < 0 {
 			total = 1500
@@ -292,7 +298,10 @@ func main() {
 			if a.Only >= 0 && k != a.Only {
 				continue
 			}
-			if su == "raw" {
+			if su == "seq" {
+				c := genSeq(root.Fork(uint64(k)))
+				out.Line("%s => %s", c.input(), runSeq(c))
+			} else if su == "raw" {
 				c := genRaw(root.Fork(uint64(k)))
 				out.Line("%s => %s", c.input(), runRaw(c))
 			} else {
